@@ -324,6 +324,8 @@ func execC19(seg []Ev) []Ev {
 		return execIso(in)
 	case "reent":
 		return execReent(in)
+	case "scrib":
+		return execScrib(in)
 	}
 	panic("C19: segment must begin with start / rstart / race")
 }
@@ -452,6 +454,56 @@ func execRepeat(in Ev) []Ev {
 	}
 	out = append(out, Ev{"op": "rend", "snap": s.snapshot()})
 	return out
+}
+
+// A result is the caller's: what the caller does to the variant an evaluation returned (here: overwriting it in place) shows in no
+// later evaluation - of the same calculator or of another one. The expressions are rooted in an operator, so the result is a value
+// the evaluation made (not one of the caller's own variables or a constant of the program); every evaluation gets variable
+// objects of its own.
+func execScrib(in Ev) []Ev {
+	text := toStr(in["text"])
+	evalOn := func(c *calculator.ExpressionCalculator, scribble bool) string {
+		res := "?"
+		guarded(func() {
+			vc := variables.NewVariableCollection()
+			vals := c19values(1)
+			names := []string{}
+			for k := range vals {
+				names = append(names, k)
+			}
+			sort.Strings(names)
+			for _, k := range names {
+				vc.Add(variables.NewVariable(strings.ToUpper(k), vals[k]))
+			}
+			v, err := c.EvaluateUsingVariables(vc)
+			switch {
+			case err != nil:
+				res = "error:" + errCode(err)
+			case v == nil:
+				res = "nil"
+			default:
+				res = vtypeNames[v.Type()] + ":" + cl(v.String())
+				if scribble {
+					v.SetAsString("scribbled by the caller")
+				}
+			}
+		})
+		return res
+	}
+	mk := func() *calculator.ExpressionCalculator {
+		c := calculator.NewExpressionCalculator()
+		c.SetAutoVariables(false)
+		if err := c.SetExpression(text); err != nil {
+			panic("C19 scrib: does not parse: " + text)
+		}
+		return c
+	}
+	c1 := mk()
+	first := evalOn(c1, true)
+	again := evalOn(c1, true)
+	other := evalOn(mk(), false)
+	third := evalOn(c1, false)
+	return []Ev{{"op": "scrib", "text": text, "first": first, "again": again, "other": other, "third": third}}
 }
 
 // re-entrant evaluation: a caller-written function evaluates the very calculator that is calling it (with a variable set of
@@ -747,6 +799,10 @@ func genC19(g *Gen) {
 		for n := 1; n <= 6; n++ {
 			g.Run("an evaluation nested inside an evaluation of the same calculator", []Ev{{"op": "reent", "text": tx, "n": n}})
 		}
+	}
+	for _, tx := range []string{"n IS NULL", "a IS NULL", "n IS NOT NULL", "a IS NOT NULL", "a NOT IN arr", "b NOT IN arr", "a IN arr", "NOT t", "a = b", "a <> b", "a < b",
+		"a + b", "-c", "s + 'x'", "t AND t", "t OR t", "a * c - d", "n + a", "arr[0] + 1", "Abs(d) + 0", "(a IS NULL) OR (n IS NULL)", "NOT (a NOT IN arr)"} {
+		g.Run("results overwritten in place by the caller", []Ev{{"op": "scrib", "text": tx}})
 	}
 	for o := 0; o < 6; o++ {
 		g.Run("separate instances customise their own function tables", []Ev{{"op": "iso", "order": o}})
